@@ -156,6 +156,9 @@ def _requests(tier):
         b"/URL:http://h/../../secret", b"URL:file:///etc/passwd", b"/s.sh|../secret", b"/s.sh?../secret", b"/t.html.tal/../secret",
         b"/gm/../../secret", b"/.../secret", b"/\xe2\x80\xa5/secret", b"/a/\xef\xbc\x8e\xef\xbc\x8e/\xef\xbc\x8e\xef\xbc\x8e/secret", b"/a\xef\xbc\x8f..\xef\xbc\x8f..\xef\xbc\x8fsecret",
         b"/\xef\xbc\x8e./secret", b"x/f.txt", b"x/../secret", b"URL:http:/example.com", b".abstract", b"-private/secret.txt", b"/..", b"/../", b"/../.", b"/./../secret", b"//secret", b"/\\secret", b"/a/./f.txt",
+        # text after ? or | in a selector of an executable: arguments, never a command line
+        b"/ns.sh", b"/ns.sh?x;cat secret ../secret outside.txt ../outside.txt */secret", b"/ns.sh|x;cat secret ../secret outside.txt ../outside.txt", b"/ns.sh?$(cat ../secret secret)", b"/ns.sh|`cat ../secret secret`",
+        b"/s.sh?x;cat secret ../secret outside.txt", b"/s.sh|$(cat ../secret)", b"/bad.sh?;cat ../secret secret", b"/p.pyg|;cat ../secret", b"/s.sh?-c cat${IFS}../secret", b"/ns.sh?x\ncat ../secret",
         b"/a//f.txt", b"/a/.\\f.txt", b"/a\\\\f.txt", b"/f.txt\0", b"/\0/../secret", b"/secret\0.txt", b"/..\0",
     ]
     plist = list(dict.fromkeys(plist + extra))
@@ -194,6 +197,9 @@ class _Env:
         self.root = os.path.join(self.base, "site", "root")
         os.makedirs(os.path.join(self.base, "sib"))
         spec = worlds.standard_spec(full=True)
+        # executables the kernel refuses to run directly (no #! line; a line that names no interpreter)
+        spec["ns.sh"] = ("exec", b"echo NO-SHEBANG-RAN\ncat secret ../secret outside.txt ../outside.txt 2>/dev/null\n")
+        spec["bad.sh"] = ("exec", b"#!/no/such/interpreter\necho never\n")
         inner = worlds.make_zip([("i.txt", b"inner member\n")])
         spec["z.zip"] = worlds.make_zip([("f.txt", b"zip member f\n"), ("sub/g.txt", b"zip member g\n"), ("m.mbox", worlds.MBOX), ("inner.zip", inner), ("sub/inner.zip", inner)])
         # content that points outside: link targets the selector filter would refuse
